@@ -4,7 +4,8 @@
    sparse component, dual variables, line-search state) are arbitrary types; upd / stop / normf / post / ls_accept /
    lsw / lsx are arbitrary functions of the whole state, so the statements hold for every numerical update rule, every
    convergence / callback decision sequence, mask and sparsity setting and every iteration budget.  pre / pre_on is
-   parafac's orthogonalise hook, ls_on / lsf its line search. *)
+   parafac's orthogonalise hook (an arbitrary replacement of every NON-FIXED factor, commit ef1ea18), ls_on / lsf its
+   line search. *)
 From Coq Require Import List Arith Bool Ring ZArith.
 From TLV Require Import Base.Shape Base.PyList Base.Tensor Base.BigSum Model.WarmStart Proofs.WarmStartProofs
   Proofs.WarmStartProofs2 Proofs.WarmStartTucker Proofs.WarmStartP2 Proofs.WarmStartEndToEnd.
@@ -111,21 +112,22 @@ Theorem C14_zero_budget : forall (M W X : Type) upd stop normf normalize pre pre
 Proof. exact @run_zero_budget. Qed.
 Print Assumptions C14_zero_budget.
 
-(* (iii) fixed modes stay fixed (Leibniz equality of the factor).  Default normalisation, orthogonalise off (the default);
-   mask / sparsity / error bookkeeping arbitrary; line search on or off with ANY candidate formula lsf that returns x for
-   (last, current) = (x, x) -- parafac's formula does, see C14_linesearch_candidate / C14_fixed_modes_linesearch *)
-Theorem C14_fixed_modes : forall (M W X : Type) upd stop normf pre post ls_on ls_accept lsf lsw lsx a n fixed budget tol
+(* (iii) fixed modes stay fixed (Leibniz equality of the factor).  Default normalisation; orthogonalise on or off with ANY
+   replacement rule (the hook skips fixed modes); mask / sparsity / error bookkeeping arbitrary; line search on or off with
+   ANY candidate formula lsf that returns x for (last, current) = (x, x) -- parafac's formula does, see
+   C14_linesearch_candidate / C14_fixed_modes_linesearch *)
+Theorem C14_fixed_modes : forall (M W X : Type) upd stop normf pre pre_on post ls_on ls_accept lsf lsw lsx a n fixed budget tol
   (s s' : st M W X) (d : M) (m : nat),
   (has_hooks a = true -> forall it s x, lsf it s x x = x) ->
-  run upd stop normf false pre (fun _ => false) post ls_on ls_accept lsf lsw lsx a n fixed budget tol s = Ok s' ->
+  run upd stop normf false pre pre_on post ls_on ls_accept lsf lsw lsx a n fixed budget tol s = Ok s' ->
   In m (eff_fixed a n fixed) -> nth m (facs s') d = nth m (facs s) d.
 Proof. exact @run_fixed. Qed.
 Print Assumptions C14_fixed_modes.
 
-Theorem C14_fixed_modes_user : forall (M W X : Type) upd stop normf pre post ls_on ls_accept lsf lsw lsx a n fixed budget tol
+Theorem C14_fixed_modes_user : forall (M W X : Type) upd stop normf pre pre_on post ls_on ls_accept lsf lsw lsx a n fixed budget tol
   (s s' : st M W X) (d : M) (m : nat),
   (has_hooks a = true -> forall it s x, lsf it s x x = x) ->
-  run upd stop normf false pre (fun _ => false) post ls_on ls_accept lsf lsw lsx a n fixed budget tol s = Ok s' ->
+  run upd stop normf false pre pre_on post ls_on ls_accept lsf lsw lsx a n fixed budget tol s = Ok s' ->
   In m fixed -> (drops_last a = true -> m <> n - 1) -> nth m (facs s') d = nth m (facs s) d.
 Proof. exact @run_fixed_user. Qed.
 Print Assumptions C14_fixed_modes_user.
@@ -138,43 +140,24 @@ Theorem C14_linesearch_candidate : forall (F : Type) (rO rI : F) (radd rmul rsub
 Proof. exact ls_mat_same. Qed.
 Print Assumptions C14_linesearch_candidate.
 
-(* ... hence fixed modes survive parafac(linesearch=True) with every jump schedule and every accept decision (ring regime:
-   equality of values; in floating point x + (x - x) * jump returns +0.0 for an entry -0.0 and NaN for an infinite one) *)
+(* ... hence fixed modes survive parafac with orthogonalise, mask, sparsity and linesearch=True in any combination, for every
+   jump schedule and accept decision, with no hypothesis left (ring regime: equality of values; in floating point
+   x + (x - x) * jump returns +0.0 for an entry -0.0 and NaN for an infinite one) *)
 Theorem C14_fixed_modes_linesearch : forall (F : Type) (rO rI : F) (radd rmul rsub : F -> F -> F) (ropp : F -> F),
   ring_theory rO rI radd rmul rsub ropp (@eq F) ->
-  forall (W X : Type) upd stop normf pre post ls_on ls_accept (jump : nat -> st (list (list F)) W X -> F) lsw lsx
+  forall (W X : Type) upd stop normf pre pre_on post ls_on ls_accept (jump : nat -> st (list (list F)) W X -> F) lsw lsx
   a n fixed budget tol (s s' : st (list (list F)) W X) d m,
-  run upd stop normf false pre (fun _ => false) post ls_on ls_accept (fun it s => ls_mat radd rsub rmul (jump it s)) lsw lsx
+  run upd stop normf false pre pre_on post ls_on ls_accept (fun it s => ls_mat radd rsub rmul (jump it s)) lsw lsx
       a n fixed budget tol s = Ok s' ->
   In m (eff_fixed a n fixed) -> nth m (facs s') d = nth m (facs s) d.
 Proof. exact fixed_modes_linesearch. Qed.
 Print Assumptions C14_fixed_modes_linesearch.
-
-(* orthogonalise: the hook rewrites EVERY factor before the sweep.  Fixed modes survive PROVIDED the hook leaves them
-   alone (hypothesis; the candidate repair build/fix_candidates/C14_orthogonalise_fixed_modes.diff makes it true) ... *)
-Theorem C14_fixed_modes_hooks_partial : forall (M W X : Type) upd stop normf pre pre_on post ls_on ls_accept lsf lsw lsx
-  a n fixed budget tol (s s' : st M W X) (d : M) (m : nat),
-  (has_hooks a = true -> forall it s, pre_on it = true -> nth m (facs (pre it s)) d = nth m (facs s) d) ->
-  (has_hooks a = true -> forall it s x, lsf it s x x = x) ->
-  run upd stop normf false pre pre_on post ls_on ls_accept lsf lsw lsx a n fixed budget tol s = Ok s' ->
-  In m (eff_fixed a n fixed) -> nth m (facs s') d = nth m (facs s) d.
-Proof. exact @run_fixed_hooks. Qed.
-Print Assumptions C14_fixed_modes_hooks_partial.
-
-(* ... and do not otherwise: parafac(orthogonalise=True, fixed_modes=[0]) returns the Q factor of the supplied one
-   (genuine defect, known finding) *)
-Theorem C14_orthogonalise_refuted : exists upd stop normf pre pre_on post ls_on ls_accept lsf lsw lsx (s s' : st nat unit unit),
-  run upd stop normf false pre pre_on post ls_on ls_accept lsf lsw lsx Parafac 2 [0] 1 true s = Ok s' /\
-  In 0 (eff_fixed Parafac 2 [0]) /\ (forall it s x, lsf it s x x = x) /\ nth 0 (facs s') 0 <> nth 0 (facs s) 0.
-Proof. exact orthogonalise_breaks_fixed. Qed.
-Print Assumptions C14_orthogonalise_refuted.
 
 (* end to end (initialiser + skeleton): a fixed mode other than the last is returned as the SUPPLIED array, whatever the
    weights of the initialisation, the algorithm, the update rule, the decisions and the budget *)
 Theorem C14_fixed_end_to_end : forall (F : Type) (rI : F) (rmul : F -> F -> F) (eqb : F -> F -> bool) (X : Type)
   upd stop normf pre pre_on post ls_on ls_accept lsf lsw lsx a n fixed budget tol R (w : option (list F))
   (fs : list (matrix (F := F))) (x : X) s' m d,
-  (has_hooks a = true -> forall it s, pre_on it = true -> nth m (facs (pre it s)) d = nth m (facs s) d) ->
   (has_hooks a = true -> forall it s x, lsf it s x x = x) ->
   run upd stop normf false pre pre_on post ls_on ls_accept lsf lsw lsx a n fixed budget tol (start x (init_cp rI rmul eqb R w fs)) = Ok s' ->
   In m fixed -> (drops_last a = true -> m <> n - 1) -> m < length fs - 1 -> nth m (facs s') d = nth m fs d.
@@ -194,7 +177,7 @@ Print Assumptions C14_hals_fixed_last_mode.
 
 (* ... so with non-unit weights it is NOT the supplied array (known finding; same tensor) *)
 Theorem C14_hals_fixed_last_refuted : exists (w : list Z) (fs : list (list (list Z))) s',
-  run (fun _ m s => (nth m (facs s) [], tt)) (fun _ _ => false) (fun s => s) false (fun _ s => s) (fun _ => false) (fun _ _ => tt)
+  run (fun _ m s => (nth m (facs s) [], tt)) (fun _ _ => false) (fun s => s) false (fun _ m s => nth m (facs s) []) (fun _ => false) (fun _ _ => tt)
       (fun _ => false) (fun _ _ _ => false) (fun _ _ l c => c) (fun _ _ l c => c) (fun _ _ _ => tt) NNHals 2 [1] 1 true
       (start tt (init_cp 1%Z Z.mul Z.eqb 1 (Some w) fs)) = Ok s' /\ In 1 [1] /\
   nth 1 (facs s') [] <> nth 1 fs [].
@@ -214,7 +197,6 @@ Proof. exact zero_budget_end_to_end. Qed.
 Print Assumptions C14_zero_budget_end_to_end.
 
 Theorem C14_run_shape : forall (M W X : Type) upd stop normf pre pre_on post ls_on ls_accept lsf lsw lsx a n fixed budget tol (s s' : st M W X),
-  (has_hooks a = true -> forall it s, pre_on it = true -> length (facs (pre it s)) = length (facs s)) ->
   run upd stop normf false pre pre_on post ls_on ls_accept lsf lsw lsx a n fixed budget tol s = Ok s' -> length (facs s') = length (facs s).
 Proof. exact @run_shape. Qed.
 Print Assumptions C14_run_shape.
@@ -253,7 +235,7 @@ Print Assumptions C14_hals_all_fixed.
 
 (* normalize_factors=True is outside the statement for a reason: it rewrites fixed factors too *)
 Theorem C14_fixed_modes_normalize_refuted : exists upd stop normf (s s' : st nat unit unit),
-  run upd stop normf true (fun _ s => s) (fun _ => false) (fun _ _ => tt) (fun _ => false) (fun _ _ _ => false)
+  run upd stop normf true (fun _ _ _ => 0) (fun _ => false) (fun _ _ => tt) (fun _ => false) (fun _ _ _ => false)
       (fun _ _ l c => c) (fun _ _ l c => c) (fun _ _ _ => tt) Parafac 2 [0] 1 true s = Ok s' /\ In 0 (eff_fixed Parafac 2 [0]) /\
   nth 0 (facs s') 0 <> nth 0 (facs s) 0.
 Proof. exact normalize_breaks_fixed. Qed.
@@ -432,7 +414,7 @@ Proof. vm_compute. repeat split. Qed.
 Definition ex_run (ortho : nat -> bool) (ls : nat -> bool) a n fixed budget tol :=
   (* a factor records who touched it: it = assigned in sweep it, 100+it = orthogonalised, 200+it = line-search candidate taken *)
   run (fun it m (s : st (list nat) unit unit) => (nth m (facs s) [] ++ [it], tt)) (fun _ _ => false) (fun s => s) false
-      (fun it s => mkst (wts s) (map (fun h => h ++ [100 + it]) (facs s)) tt) ortho (fun _ _ => tt)
+      (fun it m s => nth m (facs s) [] ++ [100 + it]) ortho (fun _ _ => tt)
       ls (fun _ _ _ => true) (fun it _ l c => if list_eqb l c then l else c ++ [200 + it]) (fun _ _ l c => c) (fun _ _ _ => tt)
       a n fixed budget tol (mkst tt (repeat [] n) tt).
 
@@ -441,8 +423,8 @@ Example C14_nonvacuous_skeleton :
   ex_run (fun _ => false) (fun _ => false) Parafac 3 [1] 2 true = Ok (mkst tt [[0;1]; []; [0;1]] tt) /\
   (* line search on in sweep 1: free modes take the candidate, the fixed one is untouched *)
   ex_run (fun _ => false) (fun it => Nat.eqb it 1) Parafac 3 [1] 2 true = Ok (mkst tt [[0;1;201]; []; [0;1;201]] tt) /\
-  (* orthogonalise in sweep 0 touches the fixed mode too; the other algorithms have no such hook *)
-  ex_run (fun it => Nat.eqb it 0) (fun _ => false) Parafac 3 [1] 2 true = Ok (mkst tt [[100;0;1]; [100]; [100;0;1]] tt) /\
+  (* orthogonalise in sweep 0 rewrites the free factors only; the other algorithms have no such hook *)
+  ex_run (fun it => Nat.eqb it 0) (fun _ => false) Parafac 3 [1] 2 true = Ok (mkst tt [[100;0;1]; []; [100;0;1]] tt) /\
   ex_run (fun it => Nat.eqb it 0) (fun _ => true) NNParafac 3 [1] 2 true = Ok (mkst tt [[0;1]; []; [0;1]] tt) /\
   modes_list Parafac 3 [0;2] = [1;2] /\ modes_list NNHals 3 [0;2] = [1] /\ modes_list Parafac 3 [2;2] = [0;1] /\
   (* every mode fixed: HALS-CP returns the start for a positive budget; a request repeating the last mode leaves
